@@ -167,8 +167,9 @@ Section Generic.
     end.
   Definition names_at_depth (fuel : nat) (F : font) (all : list name) (d : nat) : list name :=
     filter (fun n => match depth_of fuel F n with Some d' => Nat.eqb d d' | None => false end) all.
+  (* an acyclic graph over the glyphs of `all` has depth below their number *)
   Definition depth_order (fuel : nat) (F : font) (all : list name) : list name :=
-    flat_map (names_at_depth fuel F all) (seq 0 fuel).
+    flat_map (names_at_depth fuel F all) (seq 0 (S (length all))).
 
   Definition inline_step (F : font) (n : name) : font :=
     match F n with
@@ -494,13 +495,113 @@ Definition contour_cyc_eqb (a b : list pt) : bool :=
   | [], [] => true
   | _, _ => Nat.eqb (length a) (length b) && existsb (list_eqb' pt_eqb a) (rotations_aux (length b) b)
   end.
+(* the implementation computes in f64: values are compared up to 2^-20 *)
+Definition Qc_close (a b : Qc) : bool := Qle_bool (Qabs (this a - this b)) (1 # 1048576).
+Definition pt_close (a b : pt) : bool := Qc_close (fst a) (fst b) && Qc_close (snd a) (snd b).
+Definition contour_cyc_close (a b : list pt) : bool :=
+  match a, b with
+  | [], [] => true
+  | _, _ => Nat.eqb (length a) (length b) && existsb (list_eqb' pt_close a) (rotations_aux (length b) b)
+  end.
+Definition aff_close (a b : aff) : bool :=
+  Qc_close (xx a) (xx b) && Qc_close (yx a) (yx b) && Qc_close (xy a) (xy b) && Qc_close (yy a) (yy b)
+  && Qc_close (dx a) (dx b) && Qc_close (dy a) (dy b) && Bool.eqb (vary a) (vary b).
 Definition comp_eqb (a b : name * aff) : bool :=
-  name_eqb (fst a) (fst b) && aff_eqb (snd a) (snd b).
+  name_eqb (fst a) (fst b) && aff_close (snd a) (snd b).
 (* the model's glyph against (contours, components, advance) read from the IR *)
 Definition glyph_matches (g : option qglyph) (cs : list (list pt)) (comps : list (name * aff)) (adv : Q) : bool :=
   match g with
   | None => false
-  | Some g => list_eqb' contour_cyc_eqb (g_contours g) cs
+  | Some g => list_eqb' contour_cyc_close (g_contours g) cs
               && list_eqb' comp_eqb (g_comps g) comps
               && Qeq_bool (g_adv g) adv
   end.
+
+(* ---- terms the harness writes ------------------------------------------------------ *)
+Definition qr (n : Z) (d : positive) : Qc := Q2Qc (n # d).
+(* a contour from x0 y0 x1 y1 ... over a common denominator *)
+Fixpoint pts (d : positive) (l : list Z) : list pt :=
+  match l with
+  | x :: y :: t => (qr x d, qr y d) :: pts d t
+  | _ => []
+  end.
+(* the same from one number: 2n digits of 48 bits, least significant first, each
+   the coordinate times 2^24, rounded, plus 2^47 (how the harness ships what it
+   read from the IR; exact for coordinates on a 2^-24 grid) *)
+Fixpoint unpack48 (n : nat) (z : Z) : list Z :=
+  match n with
+  | O => []
+  | S k => Z.land z 281474976710655 :: unpack48 k (Z.shiftr z 48)
+  end.
+Definition ptsP (n : nat) (z : Z) : list pt :=
+  pts 16777216 (map (fun d => (d - 140737488355328)%Z) (unpack48 (2 * n) z)).
+Definition A6 (d : positive) (a b c e f g : Z) (v : bool) : aff := mkAff (qr a d) (qr b d) (qr c d) (qr e d) (qr f d) (qr g d) v.
+Definition G (cs : list (list pt)) (comps : list (name * aff)) (adv : Q) (ex : bool) : qglyph :=
+  glyph_new pt aff aff_ovf cs comps adv ex.
+(* fingerprint of a contour list: points per contour (in order), sum of x, sum of y,
+   twice the signed area (shoelace; changes sign with the orientation, does not
+   depend on the start point) *)
+Local Open Scope Qc_scope.
+Fixpoint shoelace_from (p0 : pt) (l : list pt) : Qc :=
+  match l with
+  | [] => 0
+  | a :: t =>
+      match t with
+      | [] => fst a * snd p0 - fst p0 * snd a
+      | b :: _ => fst a * snd b - fst b * snd a + shoelace_from p0 t
+      end
+  end.
+Definition shoelace (c : list pt) : Qc := match c with [] => 0 | p0 :: _ => shoelace_from p0 c end.
+Definition qsum (l : list Qc) : Qc := fold_right Qcplus 0 l.
+Local Close Scope Qc_scope.
+Definition fp_lens (cs : list (list pt)) : list nat := map (@length pt) cs.
+Definition fp_sx (cs : list (list pt)) : Qc := qsum (map (fun c => qsum (map fst c)) cs).
+Definition fp_sy (cs : list (list pt)) : Qc := qsum (map (fun c => qsum (map snd c)) cs).
+Definition fp_area (cs : list (list pt)) : Qc := qsum (map shoelace cs).
+Definition Qc_near (a b : Qc) : bool := Qle_bool (Qabs (this a - this b)) (1 # 1024).
+
+(* what the implementation left in the IR: glyph order (without .notdef) and, per
+   glyph at one location, components and advance with either all contour points
+   or the fingerprint of the contours (large outlines) *)
+Inductive ir_glyph :=
+| IRfull (n : name) (cs : list (list pt)) (comps : list (name * aff)) (adv : Q)
+| IRfp (n : name) (lens : list nat) (sx sy area : Qc) (comps : list (name * aff)) (adv : Q).
+Definition ir_matches (F : qfont) (e : ir_glyph) : bool :=
+  match e with
+  | IRfull n cs comps adv => glyph_matches (F n) cs comps adv
+  | IRfp n lens sx sy ar comps adv =>
+      match F n with
+      | None => false
+      | Some g => list_eqb' Nat.eqb (fp_lens (g_contours g)) lens
+                  && Qc_near (fp_sx (g_contours g)) sx && Qc_near (fp_sy (g_contours g)) sy
+                  && Qc_near (fp_area (g_contours g)) ar
+                  && list_eqb' comp_eqb (g_comps g) comps && Qeq_bool (g_adv g) adv
+      end
+  end.
+Definition check_run (fuel : nat) (fl : flags) (F : qfont) (all order : list name)
+                     (impl_order : list name) (impl : list ir_glyph) (impl_lost_contours : bool) : bool :=
+  match q_process fuel fl F all order with
+  | None => false
+  | Some s =>
+      list_eqb' name_eqb (st_order s) impl_order
+      && forallb (ir_matches (st_font s)) impl
+      && implb impl_lost_contours (st_lossy s)
+  end.
+Definition check_runs (fuel : nat) (fls : list flags) (F : qfont) (all order : list name)
+                      (impl_order : list name) (impl : list ir_glyph) (impl_lost_contours : bool) : bool :=
+  forallb (fun fl => check_run fuel fl F all order impl_order impl impl_lost_contours) fls.
+(* diagnostic view of a run *)
+Definition show_run (fuel : nat) (fl : flags) (F : qfont) (all order : list name) :=
+  match q_process fuel fl F all order with
+  | None => None
+  | Some s => Some (st_order s, st_lossy s,
+                    map (fun n => match st_font s n with
+                                  | Some g => (map (map (fun p => (this (fst p), this (snd p)))) (g_contours g),
+                                               map (fun ct => (fst ct, [this (xx (snd ct)); this (yx (snd ct)); this (xy (snd ct));
+                                                                         this (yy (snd ct)); this (dx (snd ct)); this (dy (snd ct))]))
+                                                   (g_comps g), g_adv g)
+                                  | None => ([], [], 0%Q)
+                                  end) (st_order s))
+  end.
+Definition lossy_run (fuel : nat) (fl : flags) (F : qfont) (all order : list name) : bool :=
+  match q_process fuel fl F all order with Some s => st_lossy s | None => false end.
